@@ -247,4 +247,15 @@ class C20(SimCheck):
     FUZZ_T = 600000
 
 
-CHECKS = {"C19": C19, "C02": C02, "C03": C03, "C04": C04, "C18": C18, "C01": C01, "C05": C05, "C06": C06, "C07": C07, "C10": C10, "C20": C20}
+class C08(SimCheck):
+    pid = "C08"
+    rule = ("histories of up to 10 requests over two names through query/send (dnsrec), legacy byte forms, getaddrinfo and gethostbyname, with key variations (case, trailing dot, type incl. unnamed types 99/100), "
+            "replies with TTL mixes, NXDOMAIN/NODATA with and without SOA, TC and error rcodes, qcache in {0,1,60,3600,86400}, clock advances across TTL boundaries, set_servers/reinit; oracle (soundness of hits, "
+            "a miss is always allowed): a request completed with server data but without any transmission of its own question must carry the provenance serial of an earlier accepted reply with the same "
+            "name/type, not truncated, rcode NOERROR/NXDOMAIN, cache enabled, no server-set change or reinit in between, age <= min(qcache, min TTL | min(SOA ttl, SOA minimum)), and every TTL the callback "
+            "sees (record getters, decoded legacy bytes, ai_ttl) equals original - age within one second. non-trivial = a hit after virtual time passed; distinct = distinct scenario text")
+    required_counters = ["c08.hits", "c08.hits_after_time_passed", "c08.ttl_checks.dnsrec"]
+    nontrivial_floor = {"quick": 30, "thorough": 200}
+
+
+CHECKS = {"C08": C08, "C19": C19, "C02": C02, "C03": C03, "C04": C04, "C18": C18, "C01": C01, "C05": C05, "C06": C06, "C07": C07, "C10": C10, "C20": C20}
